@@ -175,6 +175,10 @@ def mutated_names(stmts):
             out.append((n, t))
     if isinstance(node, ast.Call):
       f = node.func
+      if isinstance(f, ast.Name) and f.id == 'next' and node.args:
+        n = base_name(node.args[0])
+        if n:
+          out.append((n, node.args[0]))
       if isinstance(f, ast.Attribute) and f.attr in MUTATORS:
         n = base_name(f.value)
         if n:
@@ -1255,9 +1259,15 @@ class Engine:
       def cond(c):
         return to_z3(getpos(c)) < z3.Length(seq)
 
+      enum_start = getattr(it, 'enum_start', None)
+
+      def item_at(p):
+        v = codec.dec(seq[p])
+        return v if enum_start is None else (p + enum_start, v)
+
       def pre(c):
         p = to_z3(getpos(c))
-        self.assign(c, s.target, codec.dec(seq[p]))
+        self.assign(c, s.target, item_at(p))
         setpos(c, p + 1)  # python advances the iterator before the body runs
 
       def adv(c):
@@ -1265,7 +1275,7 @@ class Engine:
 
       def last(c):
         p = to_z3(getpos(c))
-        self.assign(c, s.target, codec.dec(seq[p - 1]))
+        self.assign(c, s.target, item_at(p - 1))
 
       return self.run_loop(ctx, s, spec, idx, header, cond, pre, adv,
                            hid if it.pos is None else None,
@@ -1891,11 +1901,26 @@ def _b_print(ctx, *a, **k):
   return None
 
 
+class EnumV(Val):
+  """enumerate(iterable) over a symbolic sequence."""
+
+  def __init__(self, inner, start):
+    self.inner, self.start = inner, start
+
+  def iterate(self, ctx):
+    spec = ctx.engine.iterate(ctx, self.inner)
+    if spec.seq is None:
+      raise Unsupported('enumerate over this iterable')
+    out = IterSpec(seq=spec.seq, codec=spec.codec, pos=spec.pos)
+    out.enum_start = self.start
+    return out
+
+
 def _b_enumerate(ctx, v, start=0):
   spec = ctx.engine.iterate(ctx, v)
   if spec.items is not None:
     return tuple((i + start, x) for i, x in enumerate(spec.items))
-  raise Unsupported('enumerate over symbolic iterable')
+  return EnumV(v, start)
 
 
 def _b_zip(ctx, *vs):
